@@ -799,6 +799,11 @@ func (e *SpecEnv) evalCall(x *ast.CallExpr) Term {
 		m := e.eval(arg(0))
 		mi := vc.mapInfo(m.T)
 		return vc.ghostArrayTerm(vc.mapDom(e.st, mi, m.S), &ghostType{K: mi.K, V: types.Typ[types.Bool]})
+	case "ctxdone":
+		// ctxdone(ctx): the context is (eventually) cancelled - the fact a `<-ctx.Done()` case assumes when taken
+		c := e.eval(arg(0))
+		vc.u.declFun("abs.ctxdone", "(Iface) Bool")
+		return boolTerm("(abs.ctxdone " + c.S + ")")
 	case "strlt":
 		a, b := e.eval(arg(0)), e.eval(arg(1))
 		return boolTerm("(s.lt " + a.S + " " + b.S + ")")
